@@ -259,6 +259,22 @@ def _pure_value(fn) -> Optional[ast.AST]:
             if isinstance(st, ast.Return) and st.value is not None:
                 return _Rename(env).visit(copy.deepcopy(st.value))
             if isinstance(st, ast.If):
+                if not any(isinstance(n, ast.Return) for n in _walk_stmts(st)):
+                    # plain conditional assignments: continue with conditional values
+                    test = _Rename(env).visit(copy.deepcopy(st.test))
+                    e1 = assigns(st.body, env)
+                    e2 = assigns(st.orelse, env)
+                    if e1 is None or e2 is None:
+                        return None
+                    for k in set(e1) | set(e2):
+                        a1, a2 = e1.get(k, env.get(k)), e2.get(k, env.get(k))
+                        if a1 is None or a2 is None:
+                            env.pop(k, None)
+                        elif ast.dump(a1) == ast.dump(a2):
+                            env[k] = a1
+                        else:
+                            env[k] = ast.IfExp(test=copy.deepcopy(test), body=a1, orelse=a2)
+                    continue
                 a = run(st.body, env)
                 b = run(st.orelse + stmts[i + 1:], env)
                 if a is None or b is None:
@@ -266,6 +282,22 @@ def _pure_value(fn) -> Optional[ast.AST]:
                 return ast.IfExp(test=_Rename(env).visit(copy.deepcopy(st.test)), body=a, orelse=b)
             return None
         return None
+
+    def assigns(stmts, env) -> Optional[Dict[str, ast.AST]]:
+        env = dict(env)
+        out: Dict[str, ast.AST] = {}
+        for st in stmts:
+            if isinstance(st, ast.Expr) and isinstance(st.value, ast.Constant):
+                continue
+            if isinstance(st, ast.Pass):
+                continue
+            if isinstance(st, ast.Assign) and len(st.targets) == 1 and isinstance(st.targets[0], ast.Name):
+                v = _Rename(env).visit(copy.deepcopy(st.value))
+                env[st.targets[0].id] = v
+                out[st.targets[0].id] = v
+                continue
+            return None
+        return out
     for n in _walk_stmts(fn):
         if isinstance(n, (ast.For, ast.While, ast.Try, ast.With, ast.AugAssign, ast.Raise, ast.Global, ast.Nonlocal, ast.Yield, ast.YieldFrom, ast.Await)):
             return None
@@ -319,9 +351,10 @@ class Helper:
 
 
 class Inliner:
-    def __init__(self, modules: Dict[str, "object"], known: Set[str]):
+    def __init__(self, modules: Dict[str, "object"], known: Set[str], known_lit: Optional[Dict[str, int]] = None):
         self.modules = modules
         self.known = known
+        self.known_lit = known_lit or {}
         self.helpers: Dict[str, Helper] = {}            # key -> Helper (new functions only)
         self.by_class: Dict[Tuple[str, str], Dict[str, Helper]] = {}
         self.by_module: Dict[str, Dict[str, Helper]] = {}
@@ -384,9 +417,12 @@ class Inliner:
         return None
 
     # -------------------------------------------------------------------------------------------- inlining
-    def _instantiate(self, h: Helper, binding: Dict[str, ast.AST]) -> Tuple[List[ast.stmt], Dict[str, ast.AST], List[ast.stmt]]:
-        """(prelude assignments, name mapping, renamed body)"""
+    def _instantiate(self, h: Helper, binding: Dict[str, ast.AST], caller=None) -> Tuple[List[ast.stmt], Dict[str, ast.AST], List[ast.stmt]]:
+        """(prelude assignments, name mapping, renamed body); locals of the helper keep their names unless the caller uses
+        the same name (extracted code usually keeps the names it had before the extraction)"""
         fn = h.fn
+        caller_names = {n.id for n in ast.walk(caller) if isinstance(n, ast.Name)} | {a.arg for a in ast.walk(caller) if isinstance(a, ast.arg)} \
+            if caller is not None else None
         assigned = _stored_names(ast.Module(body=fn.body, type_ignores=[])) if not isinstance(fn, ast.Lambda) else set()
         mapping: Dict[str, ast.AST] = {}
         prelude: List[ast.stmt] = []
@@ -398,7 +434,8 @@ class Inliner:
                 prelude.append(ast.Assign(targets=[ast.Name(id=nm, ctx=ast.Store())], value=copy.deepcopy(a), lineno=getattr(fn, "lineno", 0)))
                 mapping[p] = nm
         for nm in sorted(assigned - set(binding)):
-            mapping[nm] = _fresh(nm)
+            if caller_names is None or nm in caller_names:
+                mapping[nm] = _fresh(nm)
         body = [] if isinstance(fn, ast.Lambda) else [_Rename(mapping).visit(copy.deepcopy(s)) for s in fn.body]
         return prelude, mapping, body
 
@@ -436,10 +473,106 @@ class Inliner:
             visit_Lambda = visit_FunctionDef
             visit_AsyncFunctionDef = visit_FunctionDef
 
+        def predicate_inline(st: ast.If) -> Optional[List[ast.stmt]]:
+            """`if [not] H(args): <body ending in a jump>` where the new helper H is a predicate with early constant returns:
+            the helper's loops are put in place of the `if`, every `return c` that makes the test true becomes the body."""
+            if st.orelse or not st.body or not isinstance(st.body[-1], (ast.Return, ast.Raise, ast.Continue, ast.Break)):
+                return None
+            t, neg = st.test, False
+            while isinstance(t, ast.UnaryOp) and isinstance(t.op, ast.Not):
+                t, neg = t.operand, not neg
+            if not isinstance(t, ast.Call):
+                return None
+            r = ex.resolve(t, modname, cls, chain)
+            if r is None:
+                return None
+            h, recv = r
+            if isinstance(h.fn, ast.Lambda) or h.fn is fn or h.value is not None:
+                return None
+            b = h.bind(t, recv)
+            if b is None:
+                return None
+            rets = [n for n in _walk_stmts(h.fn) if isinstance(n, ast.Return)]
+            if not rets or not all(isinstance(x.value, ast.Constant) and isinstance(x.value.value, bool) for x in rets):
+                return None
+            last = h.fn.body[-1]
+            fires = lambda v: (not v) if neg else v
+            for x in rets:
+                if not fires(x.value.value) and x is not last:
+                    return None
+            if not isinstance(last, ast.Return):
+                return None     # falling off the end returns None: not a two-valued predicate
+            prelude, mapping, body = ex._instantiate(h, b, fn)
+            if body and isinstance(body[0], ast.Expr) and isinstance(body[0].value, ast.Constant) and isinstance(body[0].value.value, str):
+                body = body[1:]
+            if isinstance(st.body[-1], (ast.Continue, ast.Break)) and any(isinstance(n, (ast.For, ast.While)) for s_ in body for n in _walk_stmts(s_)):
+                return None     # a continue / break of the caller's loop would bind to the helper's loop
+
+            class RR(ast.NodeTransformer):
+                def visit_Return(self, node):
+                    if fires(node.value.value):
+                        return [copy.deepcopy(s_) for s_ in st.body]
+                    return ast.Pass()
+
+                def visit_FunctionDef(self, node):
+                    return node
+                visit_Lambda = visit_FunctionDef
+            new_body = []
+            for s_ in body:
+                r_ = RR().visit(s_)
+                new_body.extend(r_ if isinstance(r_, list) else [r_])
+            ex.report.append(f"{modname}: predicate helper `{h.name}` inlined into `{getattr(fn, 'name', '?')}`")
+            return prelude + new_body
+
+        def unroll_literal_loop(st: ast.For) -> Optional[List[ast.stmt]]:
+            """`for t in (A, B): body`  ->  body[t := A]; body[t := B]   (literal tuple / list of at most 4 simple elements)"""
+            it = st.iter
+            if st.orelse or not isinstance(it, (ast.Tuple, ast.List)) or not (1 <= len(it.elts) <= 4):
+                return None
+            if any(isinstance(n, (ast.Break, ast.Continue)) for s_ in st.body for n in _walk_stmts(s_)):
+                return None
+            tnames = [n.id for n in ast.walk(st.target) if isinstance(n, ast.Name)]
+            if any(isinstance(n, ast.Name) and n.id in tnames and isinstance(n.ctx, ast.Store) for s_ in st.body for n in ast.walk(s_)):
+                return None
+            out_: List[ast.stmt] = []
+            for el in it.elts:
+                m: Dict[str, ast.AST] = {}
+                if isinstance(st.target, ast.Name):
+                    if not _simple(el):
+                        return None
+                    m[st.target.id] = el
+                elif isinstance(st.target, (ast.Tuple, ast.List)) and isinstance(el, (ast.Tuple, ast.List)) and len(el.elts) == len(st.target.elts) and \
+                        all(isinstance(x, ast.Name) for x in st.target.elts) and all(_simple(x) for x in el.elts):
+                    for x, v in zip(st.target.elts, el.elts):
+                        m[x.id] = v
+                else:
+                    return None
+                out_.extend(_Rename(m).visit(copy.deepcopy(s_)) for s_ in st.body)
+            if not ex.known_has_function(modname, fn):
+                return None
+            return out_
+
         def block(stmts: List[ast.stmt]) -> List[ast.stmt]:
             nonlocal changed
             out: List[ast.stmt] = []
             for st in stmts:
+                if isinstance(st, ast.If):
+                    pi = predicate_inline(st)
+                    if pi is not None:
+                        for n_ in pi:
+                            ast.fix_missing_locations(ast.copy_location(n_, st) if not hasattr(n_, "lineno") else n_)
+                        out.extend(block(pi))
+                        changed = True
+                        continue
+                if isinstance(st, ast.For) and ex.new_literal_loop(modname, fn, st):
+                    ul = unroll_literal_loop(st)
+                    if ul is not None:
+                        for n_ in ul:
+                            ast.fix_missing_locations(n_)
+                        out.extend(block(ul))
+                        changed = True
+                        ex.report.append(f"{modname}: loop over a literal tuple unrolled in `{getattr(fn, 'name', '?')}`")
+                        continue
                 call = None
                 mode = None
                 if isinstance(st, ast.Expr) and isinstance(st.value, ast.Call):
@@ -457,7 +590,7 @@ class Inliner:
                             not (mode != "stmt" and ex._value_of(h, call, recv) is not None):
                         # arguments may themselves contain inlinable value helpers
                         b = {p: ExprInl().visit(copy.deepcopy(a)) for p, a in b.items()}
-                        prelude, mapping, body = ex._instantiate(h, b)
+                        prelude, mapping, body = ex._instantiate(h, b, fn)
                         if body and isinstance(body[0], ast.Expr) and isinstance(body[0].value, ast.Constant) and isinstance(body[0].value.value, str):
                             body = body[1:]
                         if mode == "stmt":
@@ -499,9 +632,22 @@ class Inliner:
         fn.body = block(fn.body)
         return changed
 
+    def known_has_function(self, modname, fn) -> bool:
+        return True
+
+    def new_literal_loop(self, modname: str, fn, st: ast.For) -> bool:
+        """a loop over a literal tuple is unrolled only if the reviewed version of the function had no such loop (the
+        known-functions file records the number of literal-tuple loops per function)"""
+        key = self._key_of.get(id(fn))
+        if key is None:
+            return False
+        return self.known_lit.get(key, 0) == 0
+
     def run(self):
-        if not self.helpers:
-            return
+        self._key_of = {}
+        for modname, mod in self.modules.items():
+            for key, node, cls, encl in function_keys(mod.tree, modname):
+                self._key_of[id(node)] = key
         for _ in range(MAX_ROUNDS):
             any_change = False
             for modname, mod in self.modules.items():
@@ -562,6 +708,6 @@ def normalise(modules: Dict[str, "object"]) -> List[str]:
     if known is None:
         return []
     notes = undo_private_renames(modules, known)
-    inl = Inliner(modules, known)
+    inl = Inliner(modules, known, dict(json.load(open(KNOWN)).get("literal_loops", {})))
     inl.run()
     return notes + sorted(set(inl.report))
